@@ -693,6 +693,9 @@ func C13(tier string) int {
 		}
 	}
 
+	// ---- the entity-level write path: every PersistContext setter under every selection
+	c13PersistContext(rep)
+
 	// ---- field checkers: a restricted write touches only the selected fields
 	fields := []string{"s", "i", "t", "l"}
 	for mask := 0; mask < 16; mask++ {
